@@ -1,6 +1,7 @@
 import DateutilVerif.Properties.C18
 import DateutilVerif.Properties.TzFixedEqGen   -- translator tie for tzutc / tzoffset __eq__ and class facts (wt-tzfile)
 import DateutilVerif.Properties.C18Resolve
+import DateutilVerif.Properties.C18Init   -- translated metaclass constructors = the initial state of the factory machine
 #print axioms C18.program_sim
 #print axioms C18.program_sim_machine
 #print axioms C18.reachable_translated
@@ -56,3 +57,6 @@ import DateutilVerif.Properties.C18Resolve
 #print axioms C18.gen_tzlocal_eq_eq_model
 #print axioms C18.gen_tzlocal_init_eq_model
 #print axioms C18.tzlocal_init_no_daylight
+#print axioms C18.factory_init_is_initState
+#print axioms C18.factory_init_fields
+#print axioms C18.singleton_init_empty
